@@ -59,6 +59,30 @@ fn stale_finished(run: &Run) -> bool {
         })
 }
 
+/// jobs that were sent, never started, were neither discarded nor returned, and ceased to exist (their drop is
+/// logged) at a moment when no worker was going down: a death only excuses a job that went down WITH that
+/// worker, i.e. was dropped before the worker's replacement was built (or, for kills armed by the script,
+/// before the worker was observed gone); one that was dropped later was in the factory's hands
+fn vanished_in_factory(run: &Run, f: &BTreeMap<u32, Fate>) -> Vec<u32> {
+    let moments: Vec<u64> = run.events.iter().filter_map(|(l, e)| if matches!(e, Ev::Built { inc, .. } if *inc > 0) || matches!(e, Ev::WorkerGone { .. }) { Some(*l) } else { None }).collect();
+    let mut out = Vec::new();
+    for j in &run.jobs {
+        let x = &f[&j.id];
+        let refused = !x.discards.is_empty() || j.accepted == Some(false);
+        let died_in_mailbox = j.after_drain && j.port_closed && j.accepted.is_none() && run.factory_status >= ActorStatus::Stopping;
+        if !x.starts.is_empty() || refused || j.send_failed || died_in_mailbox {
+            continue;
+        }
+        if let Some(d) = run.events.iter().find(|(_, e)| matches!(e, Ev::Dropped { id } if *id == j.id)).map(|(l, _)| *l) {
+            let with_worker = moments.iter().any(|b| d < *b) || (moments.is_empty() && run.deaths > 0);
+            if !with_worker {
+                out.push(j.id);
+            }
+        }
+    }
+    out
+}
+
 pub fn c13(run: &Run) -> Vec<String> {
     let mut bad = Vec::new();
     let f = fates(run);
@@ -130,6 +154,12 @@ pub fn c13(run: &Run) -> Vec<String> {
             bad.push(format!(
                 "{sig}{} accepted job(s) never ran and {} died with a worker, but only {} worker death(s) happened (history {:?})",
                 missing, lost_running, run.deaths, run.history
+            ));
+        }
+        for id in vanished_in_factory(run, &f) {
+            bad.push(format!(
+                "{sig}job {id} was accepted, never ran, was neither discarded nor returned, and ceased to exist while no worker was dying ({} death(s), every replacement had been built): it disappeared in the factory's hands (history {:?})",
+                run.deaths, run.history
             ));
         }
     } else if !run.drained {
@@ -422,6 +452,12 @@ pub fn c15(run: &Run) -> Vec<String> {
         let want: &[&str] = if run.factory_status == ActorStatus::Stopped { &["started", "draining", "stopped"] } else { &["started", "draining"] };
         if hooks != want && run.deaths == 0 {
             bad.push(format!("lifecycle hooks ran as {hooks:?}, expected {want:?}"));
+        }
+        let sig = if stale_finished(run) { "[[sig:stale-finished-after-replacement]] " } else { "" };
+        for id in vanished_in_factory(run, &f) {
+            if run.jobs.iter().any(|j| j.id == id && !j.after_drain) {
+                bad.push(format!("{sig}job {id} was accepted before the drain, no dying worker took it along, and it never finished: the factory stopped without it (history {:?})", run.history));
+            }
         }
         if run.deaths == 0 {
             for j in run.jobs.iter().filter(|j| !j.after_drain && j.accepted == Some(true)) {
